@@ -351,6 +351,70 @@ func init() {
 			c.Sample(d)
 		}
 	}
+	legacyLimitCase := func(c *core.Ctx, sc *SeqCase) {
+		o := V5Opts{NegIdx: true, EscapeHTML: true}
+		lv := evalWithLimit(sc, o)
+		o.Limit = chooseLimit(c, lv)
+		lv = evalWithLimit(sc, o)
+		res := ApplyLegacy(sc.DocText, sc.Patch(), true, o.Limit, "")
+		c.Eval(1)
+		d := sc.Describe()
+		d["limit"] = o.Limit
+		d["library_error"] = errText(res.Err)
+		d["reference_copy_totals"] = lv.Hi
+		if lv.Want.OutOfDom != "" || lv.Ambiguous {
+			c.Count("out_of_domain")
+			return
+		}
+		if res.Panic != nil {
+			// panics of the legacy package are C04/C18 matters; they decide nothing about the limit
+			c.Count("legacy:panic-skipped")
+			return
+		}
+		if len(lv.Hi) > 0 {
+			c.Nontrivial("legacy", sc.Canon(), fmt.Sprint(o.Limit))
+		}
+		var ce *jpl.AccumulatedCopySizeError
+		isLimit := errors.As(res.Err, &ce)
+		wantLimit := lv.Want.Doc == nil && lv.Want.Cause == ref.CopyLimit
+		// v4 differences that decide nothing about the limit: any other failure kind
+		if !wantLimit && lv.Want.Doc == nil {
+			if isLimit {
+				// The sequence ends at the operation the reference rejects. If that operation is a copy
+				// whose source resolves, the library may account it before it discovers that the copy is
+				// inapplicable: "a copy that is inapplicable for another reason decides nothing". That is
+				// the case exactly when the total in the error is the reference total plus that value.
+				last := sc.Ops[lv.Want.FailIndex]
+				var tot, lim int64
+				fmt.Sscanf(afterText(res.Err.Error(), "copy is "), "%d, exceeding the limit %d", &tot, &lim)
+				var base int64
+				if len(lv.Hi) > 0 {
+					base = lv.Hi[len(lv.Hi)-1]
+				}
+				if last.Kind == "copy" && tot > base && tot-base <= 1<<20 {
+					c.Count("legacy:limit-vs-other-failure-ambiguous")
+					return
+				}
+				c.Violation("legacy:AccumulatedCopySizeError-although-total-within-limit", d)
+			}
+			return
+		}
+		switch {
+		case wantLimit && !isLimit:
+			c.Violation("legacy:no-AccumulatedCopySizeError-although-total-exceeds-limit", d)
+		case !wantLimit && isLimit:
+			c.Violation("legacy:AccumulatedCopySizeError-although-total-within-limit", d)
+		case isLimit && res.Out != nil:
+			c.Violation("legacy:document-returned-with-limit-error", d)
+		case isLimit:
+			c.Count("legacy:limit:enforced")
+		default:
+			c.Count("legacy:limit:not-reached")
+		}
+		if c.WantSample() {
+			c.Sample(d)
+		}
+	}
 	core.Register(&core.Prop{
 		ID:    "C12",
 		Title: "The accumulated copy-size limit bounds growth caused by copy",
@@ -544,6 +608,45 @@ func init() {
 				c.Count("one-patch-both-settings:ok")
 				c.Nontrivial("both", patch, fmt.Sprint(order))
 			}},
+			{Name: "v5-charged-as-spelled-in-the-output", Exhaustive: true, Count: func(core.Tier) int { return 2 * 2 * 3 * 4 }, Run: func(c *core.Ctx, idx int) {
+				// the size charged for a copied string is the length of that string as the call writes it - whatever the
+				// root kind, the indentation and the escaping switch
+				arr := idx%2 == 0
+				idx /= 2
+				esc := idx%2 == 0
+				idx /= 2
+				ind := []string{"", " ", "\t"}[idx%3]
+				idx /= 3
+				sv := []string{`"<&>"`, `"a\u2028b"`, `"plain"`, `"x>y&&"`}[idx%4]
+				doc, patch, dest := `[`+sv+`,1]`, `[{"op":"copy","from":"/0","path":"/-"}]`, "/2"
+				if !arr {
+					doc, patch, dest = `{"a":`+sv+`,"k":1}`, `[{"op":"copy","from":"/a","path":"/b"}]`, "/b"
+				}
+				o := V5Opts{NegIdx: true, EscapeHTML: esc}
+				res := ApplyV5(doc, patch, o, ind)
+				c.Eval(1)
+				d := map[string]any{"doc": doc, "patch": patch, "options": o.String(), "indent": ind, "library_output": clip(string(res.Out), 400), "library_error": errText(res.Err), "hook_copy_events": res.Events.Copies}
+				if res.Panic != nil || res.Err != nil || len(res.Events.Copies) != 1 {
+					if res.Panic != nil {
+						d["panic"] = panicDetail(res.Panic)
+					}
+					c.Violation("charged-as-spelled:copy-fails-or-is-not-accounted", d)
+					return
+				}
+				root, err := jr.Parse(res.Out)
+				if err != nil || root.Resolve(dest) == nil {
+					c.Violation("charged-as-spelled:copied-value-not-found-in-output", d)
+					return
+				}
+				node := root.Resolve(dest)
+				if n := node.End - node.Off; res.Events.Copies[0].Size != n {
+					d["length_in_output"] = n
+					c.Violation("copy-size-differs-from-output-spelling", d)
+					return
+				}
+				c.Count("charged-as-spelled:ok")
+				c.Nontrivial("spelled", doc, ind, o.String())
+			}},
 			{Name: "v5-package-default", Count: n(10000, 400000), Run: func(c *core.Ctx, idx int) {
 				sc := c12Seq(c, true, false)
 				o := V5Opts{NegIdx: true, EscapeHTML: true}
@@ -551,69 +654,26 @@ func init() {
 				judgeV5(c, sc, o, true)
 			}},
 			{Name: "legacy-package-default", Count: n(15000, 600000), Run: func(c *core.Ctx, idx int) {
-				sc := c12Seq(c, true, true)
-				o := V5Opts{NegIdx: true, EscapeHTML: true}
-				lv := evalWithLimit(sc, o)
-				o.Limit = chooseLimit(c, lv)
-				lv = evalWithLimit(sc, o)
-				res := ApplyLegacy(sc.DocText, sc.Patch(), true, o.Limit, "")
-				c.Eval(1)
-				d := sc.Describe()
-				d["limit"] = o.Limit
-				d["library_error"] = errText(res.Err)
-				d["reference_copy_totals"] = lv.Hi
-				if lv.Want.OutOfDom != "" || lv.Ambiguous {
-					c.Count("out_of_domain")
-					return
-				}
-				if res.Panic != nil {
-					// panics of the legacy package are C04/C18 matters; they decide nothing about the limit
-					c.Count("legacy:panic-skipped")
-					return
-				}
-				if len(lv.Hi) > 0 {
-					c.Nontrivial("legacy", sc.Canon(), fmt.Sprint(o.Limit))
-				}
-				var ce *jpl.AccumulatedCopySizeError
-				isLimit := errors.As(res.Err, &ce)
-				wantLimit := lv.Want.Doc == nil && lv.Want.Cause == ref.CopyLimit
-				// v4 differences that decide nothing about the limit: any other failure kind
-				if !wantLimit && lv.Want.Doc == nil {
-					if isLimit {
-						// The sequence ends at the operation the reference rejects. If that operation is a copy
-						// whose source resolves, the library may account it before it discovers that the copy is
-						// inapplicable: "a copy that is inapplicable for another reason decides nothing". That is
-						// the case exactly when the total in the error is the reference total plus that value.
-						last := sc.Ops[lv.Want.FailIndex]
-						var tot, lim int64
-						fmt.Sscanf(afterText(res.Err.Error(), "copy is "), "%d, exceeding the limit %d", &tot, &lim)
-						var base int64
-						if len(lv.Hi) > 0 {
-							base = lv.Hi[len(lv.Hi)-1]
-						}
-						if last.Kind == "copy" && tot > base && tot-base <= 1<<20 {
-							c.Count("legacy:limit-vs-other-failure-ambiguous")
-							return
-						}
-						c.Violation("legacy:AccumulatedCopySizeError-although-total-within-limit", d)
+				legacyLimitCase(c, c12Seq(c, true, true))
+			}},
+			{Name: "legacy-documents-with-whitespace-and-raw-html", Count: n(8000, 300000), Run: func(c *core.Ctx, idx int) {
+				// the document is spelled with raw < > & and with white space between its tokens: what a copy costs is
+				// the size of the copy as the package writes it (compact, escaped), not the size of the source text
+				sc := c12Seq(c, false, true)
+				wp := gen.Plain().With(func(p *gen.Profile) { p.WS = 35; p.Spell = gen.SpellEncOff; p.Wide = 0 })
+				sc.DocText = wp.Respell(c.R, sc.Doc, false)
+				// (no test operations: the legacy package compares string spellings, and a raw "<" in the patch no
+				// longer matches once a copy has re-encoded it - outside C18's stated domain, and not C12's matter)
+				var ops []ref.Op
+				var texts []string
+				for i, op := range sc.Ops {
+					if op.Kind != "test" {
+						ops, texts = append(ops, op), append(texts, sc.OpTexts[i])
 					}
-					return
 				}
-				switch {
-				case wantLimit && !isLimit:
-					c.Violation("legacy:no-AccumulatedCopySizeError-although-total-exceeds-limit", d)
-				case !wantLimit && isLimit:
-					c.Violation("legacy:AccumulatedCopySizeError-although-total-within-limit", d)
-				case isLimit && res.Out != nil:
-					c.Violation("legacy:document-returned-with-limit-error", d)
-				case isLimit:
-					c.Count("legacy:limit:enforced")
-				default:
-					c.Count("legacy:limit:not-reached")
-				}
-				if c.WantSample() {
-					c.Sample(d)
-				}
+				sc.Ops, sc.OpTexts = ops, texts
+				legacyLimitCase(c, sc)
+				c.Count("legacy:respelled-cases")
 			}},
 		},
 	})
